@@ -229,4 +229,20 @@ theorem nextToken_progress (stops : List Ch) (inp : Str) :
   · exact Or.inr (Or.inr (Or.inr (Or.inl h)))
   · exact Or.inr (Or.inr (Or.inr (Or.inr h)))
 
+theorem eatSpace_append_ws (ws inp : Str) (h : ∀ c ∈ ws, isWhitespace c = true) :
+    eatSpace (ws ++ inp) = eatSpace inp := by
+  induction ws with
+  | nil => rfl
+  | cons c rest ih =>
+    have hc := h c List.mem_cons_self
+    simp only [List.cons_append, eatSpace, hc, if_true]
+    exact ih (fun x hx => h x (List.mem_cons_of_mem _ hx))
+
+/-- white space in front of a token is skipped: amount and kind (blank, tab, newline, CR) of the
+gap before a token do not matter -/
+theorem nextToken_skip_ws (stops : List Ch) (ws inp : Str) (h : ∀ c ∈ ws, isWhitespace c = true) :
+    nextToken stops (ws ++ inp) = nextToken stops inp := by
+  unfold nextToken
+  rw [eatSpace_append_ws ws inp h]
+
 end Rfsm.Expr
